@@ -120,9 +120,9 @@ def build(spec):
 def directed_specs(seed0, quick):
     S = []
     add = lambda **s: S.append(dict(seed=seed0 + len(S), n=34 + (len(S) * 3) % 14, **s))
-    ALL = ["Tnew", "Tconv", "Tsame", "Iconf", "Iconv", "mul", "add", "sub", "Uconf"]
+    ALL = ["Tnew", "Tconv", "Tsame", "Iconf", "Iconv", "Ifull", "mul", "add", "sub", "Uconf"]
     add(ops=ALL)
-    add(order="F", y="cat", init="arr32", ops=["Tnew", "Tsame", "Iconf", "sub"])
+    add(order="F", y="cat", init="arr32", ops=["Tnew", "Tsame", "Iconf", "Ifull", "sub"])
     add(dtype="float64", y="cont", init="arr64F", ops=["Tconv", "Tsame", "mul"])
     add(dtype="int64", init="random", ops=["Tnew", "Tsame", "add", "Uconv"])
     add(disc=True, ops=["Tnew", "Tsame", "sub", "Uconf"])
@@ -295,16 +295,18 @@ def run_case(ctx, env, spec, terms, descs, rs_helper):
                 alias = bool(isinstance(res, np.ndarray) and emb is not None and np.shares_memory(res, m.embedding_))
                 opterms.append("(VT %s, %s)" % (tterm(A.x_conforms(Xn, c["metric"], env), same, not embed), A.blist([pch or fch, cch, alias])))
                 optags.append("transform_returns_stored_embedding" if alias else "transform")
-            elif opn in ("Iconf", "Iconv"):
-                P = np.array(m.embedding_[:4] + 0.01, dtype=np.float32 if opn == "Iconf" else np.float64, order="C" if opn == "Iconf" else "F")
+            elif opn in ("Iconf", "Iconv", "Ifull"):
+                # Ifull: exactly as many query points as training samples (shape coincidences must not turn the training data into a moving layout)
+                rows = slice(None) if opn == "Ifull" else slice(0, 4)
+                P = np.array(m.embedding_[rows] + 0.01, dtype=np.float64 if opn == "Iconv" else np.float32, order="F" if opn == "Iconv" else "C")
                 xb = A.snap_obj(P)
                 m.inverse_transform(P)
                 xa = A.snap_obj(P)
                 pch = model_check(ctx, "UMAP.inverse_transform", "", bufs0, h0, d, m)
                 cch = caller_check(ctx, "UMAP.inverse_transform", dict(X=xb), dict(X=xa), d)["X"]
                 fch = any(caller_check(ctx, "UMAP.inverse_transform", cal0, caller_snap(fit_objs), d, ":array_given_to_fit").values())
-                opterms.append("(VI %s, %s)" % (A.b(opn == "Iconf" and env["check_array_identity_dense"]), A.blist([pch or fch, cch, False])))
-                optags.append("inverse_transform")
+                opterms.append("(VI %s, %s)" % (A.b(opn in ("Iconf", "Ifull") and env["check_array_identity_dense"]), A.blist([pch or fch, cch, False])))
+                optags.append("inverse_transform_n_train_points" if opn == "Ifull" else "inverse_transform")
             elif opn in ("mul", "add", "sub"):
                 if helper is None:
                     helper = umap.UMAP(n_neighbors=5, n_epochs=11, random_state=2).fit(rs_helper.normal(size=(c["n"], 3)).astype(np.float32))
